@@ -7,6 +7,7 @@ import (
 	"math"
 	"sort"
 	"strings"
+	"time"
 
 	json "github.com/go-json-experiment/json"
 	"github.com/go-json-experiment/json/jsontext"
@@ -107,6 +108,9 @@ type scopeT struct {
 	G float64           `json:"g"`
 	H peers.PTo         `json:"h"`
 	I map[string]string `json:"i"`
+	S int               `json:"s,string"`
+	T time.Time         `json:"t,format:RFC3339,omitzero"`
+	U []byte            `json:"u,format:base16"`
 }
 
 func scopeValue(i int) any {
@@ -211,14 +215,14 @@ func (sc *Scope) plan(t *core.Tape) *ScopePlan {
 }
 
 var scopeTexts = []string{
-	`{"a":1,"b":[1,2],"d":"x","unknown":true}`,
+	`{"a":1,"s":"12","b":[1,2],"d":"x","unknown":true}`,
 	`[1.5,"x",null,{"k":null}]`,
 	`{"a":"not a number"}`,
-	`{"a":3,"e":"AQI="}`,
-	`{"b":[1],"c":{"z":1},"g":2.5}`,
+	`{"a":3,"s":"x12","e":"AQI="}`,
+	`{"b":[1],"t":"2000-13-01T00:00:00Z","c":{"z":1},"g":2.5}`,
 	`"plain"`,
 	`{"a":1,"a":2}`,
-	`12345`,
+	`{"u":"zz","a":5}`,
 }
 
 func (sc *Scope) Run(t *core.Tape, env *Env) (any, []core.Violation) {
@@ -397,8 +401,8 @@ func (sc *Scope) Run(t *core.Tape, env *Env) (any, []core.Violation) {
 				callOpts = append(callOpts, scopeOpt(n, penv))
 			}
 			target := decTargets[(it.Value*7+i)%len(decTargets)].New()
-			if it.Value == 0 || it.Value == 3 {
-				target = new(scopeT)
+			if it.Value == 0 || it.Value == 3 || it.Value == 4 || it.Value == 7 {
+				target = new(scopeT) // incl. errors inside `string`- and `format`-tagged fields
 			}
 			before := optSnapshot(dec.Options())
 			err, panicked, lib, pv := guarded(func() error { return json.UnmarshalDecode(dec, target, callOpts...) })
@@ -462,6 +466,48 @@ func (sc *Scope) Run(t *core.Tape, env *Env) (any, []core.Violation) {
 			}
 		}
 	}
+	// By-product (pure): passing options separately, joined or nested gives the same result.
+	{
+		bs := t.S("byproduct")
+		v := scopeValue(bs.Draw(8))
+		var names []string
+		for k, m := 0, 2+bs.Draw(3); k < m; k++ {
+			names = append(names, scopedOptNames[bs.Draw(len(scopedOptNames))])
+		}
+		mk := func() []json.Options {
+			var os []json.Options
+			for _, n := range names {
+				if n == "WithMarshalers" {
+					os = append(os, json.WithMarshalers(byproductMarshalers))
+				} else {
+					os = append(os, scopeOpt(n, penv))
+				}
+			}
+			return append(os, json.Deterministic(true))
+		}
+		flat := mk()
+		cut := 1 + bs.Draw(len(flat)-1)
+		nested := []json.Options{json.JoinOptions(flat[:cut]...), json.JoinOptions(json.JoinOptions(flat[cut:]...))}
+		a, e1, p1, _, _ := guardedBytes(func() ([]byte, error) { return json.Marshal(v, flat...) })
+		b, e2, p2, _, _ := guardedBytes(func() ([]byte, error) { return json.Marshal(v, nested...) })
+		c, e3, p3, _, _ := guardedBytes(func() ([]byte, error) { return json.Marshal(v, json.JoinOptions(flat...)) })
+		if !p1 && !p2 && !p3 && ((e1 == nil) != (e2 == nil) || !bytes.Equal(a, b) || (e1 == nil) != (e3 == nil) || !bytes.Equal(a, c)) {
+			report("C19", "C19/flat-vs-nested-options", "Marshal", "options %v: flat %s err=%v ; nested (cut %d) %s err=%v ; joined %s err=%v", names, clip(a, 100), classify(e1), cut, clip(b, 100), classify(e2), clip(c, 100), classify(e3))
+		}
+	}
+	// By-product (pure), unmarshal side: a later false wins, DefaultOptionsV2 cancels v1 options.
+	for _, pr := range unmarshalOptProbes {
+		base := pr.new()
+		eb := json.Unmarshal([]byte(pr.text), base)
+		for _, variant := range [][]json.Options{{jsonv1.DefaultOptionsV1(), json.DefaultOptionsV2()}, {pr.opt(true), pr.opt(false)}} {
+			x := pr.new()
+			ex := json.Unmarshal([]byte(pr.text), x, variant...)
+			if (eb == nil) != (ex == nil) || renderAny(base) != renderAny(x) {
+				report("C19", "C19/later-option-does-not-win", "Unmarshal/"+pr.name, "Unmarshal(%s): default gives %s err=%v ; with the option set and then cancelled %s err=%v", pr.text, renderAny(base), classify(eb), renderAny(x), classify(ex))
+				break
+			}
+		}
+	}
 	_ = refjson.Complete
 	st.SigAdd(0x19, hashBytes([]byte(fmt.Sprint(p.Side, p.Coder, p.InObject, p.PeerKind))), uint64(len(p.Items)))
 	for _, it := range p.Items {
@@ -510,4 +556,23 @@ func diffSnap(a, b string) string {
 		return "(identical)"
 	}
 	return strings.Join(d, "; ")
+}
+
+var byproductMarshalers = json.MarshalFunc(func(v int) ([]byte, error) { return []byte(`"int"`), nil })
+
+var unmarshalOptProbes = []struct {
+	name string
+	text string
+	new  func() any
+	opt  func(bool) json.Options
+}{
+	{"ParseTimeWithLooseRFC3339", `"2000-01-01T01:02:03,5Z"`, func() any { return new(time.Time) }, jsonv1.ParseTimeWithLooseRFC3339},
+	{"ParseBytesWithLooseRFC4648", `"AQID\r\n"`, func() any { return new([]byte) }, jsonv1.ParseBytesWithLooseRFC4648},
+	{"UnmarshalArrayFromAnyLength", `[1,2]`, func() any { return new([3]int) }, jsonv1.UnmarshalArrayFromAnyLength},
+	{"MergeWithLegacySemantics", `{"k":{"b":2}}`, func() any { return &map[string]map[string]int{"k": {"a": 1}} }, jsonv1.MergeWithLegacySemantics},
+	{"MatchCaseInsensitiveNames", `{"A":1}`, func() any { return new(struct{ a, Aa int; B int `json:"a"` }) }, json.MatchCaseInsensitiveNames},
+	{"RejectUnknownMembers", `{"zz":1}`, func() any { return new(struct{ A int }) }, json.RejectUnknownMembers},
+	{"StringifyWithLegacySemantics", `{"A":"1"}`, func() any { return new(struct{ A *int `json:",string"` }) }, jsonv1.StringifyWithLegacySemantics},
+	{"FormatByteArrayAsArray", `[1,2,3]`, func() any { return new([3]byte) }, jsonv1.FormatByteArrayAsArray},
+	{"FormatDurationAsNano", `1000`, func() any { return new(time.Duration) }, jsonv1.FormatDurationAsNano},
 }
